@@ -83,13 +83,12 @@ impl Doc {
                 self.c.nodes += 1;
                 self.c.scalar_bytes += len;
                 let (is_key, is_value) = self.enter();
-                if is_key && *plain_merge {
-                    if *tagged && replayed {
-                        self.ambiguous = true;
-                    }
-                    if !*tagged || replayed {
-                        self.c.merge_keys += 1;
-                    }
+                // a tagged `<<` (say `!!str <<`) is an ordinary key, written directly or reached through an
+                // alias: nothing is merged for it (the model once followed the library here and called the
+                // replayed case a matter of interpretation; by the statement it is a false count)
+                let _ = replayed;
+                if is_key && *plain_merge && !*tagged {
+                    self.c.merge_keys += 1;
                 }
                 if is_value {
                     self.value_done();
